@@ -1012,3 +1012,49 @@ pub fn gen_expr(ch: &mut Choices, cfg: &Cfg) -> (OpeningHoursExpression, String)
     }
     (OpeningHoursExpression { rules }, out)
 }
+
+// ---- rare recurrences -----------------------------------------------------------------------
+
+/// Sentences whose matching days are years apart or sit at odd places of the calendar (leap
+/// days, ISO week 53, a date falling on a given weekday, year steps, offsets crossing the year
+/// end, Easter restricted by a week number): what long iterator jumps must not get wrong.
+pub fn gen_rare_expr(ch: &mut Choices) -> String {
+    fn rule(ch: &mut Choices) -> String {
+        let wd = wday_str(ch.pick(&WDAYS));
+        let time = ch.pick(&["", "", " 10:00-12:00", " 20:00-26:00", " 00:00-24:00", " sunrise-sunset"]);
+        let body = match ch.draw(14) {
+            0 => "Feb 29".to_string(),
+            1 => format!("Feb 29 {}", ch.pick(&["+1 day", "-1 day", "+2 days", "+7 days"])),
+            2 => format!("Feb 29 {wd}"),
+            3 => ch.pick(&["Feb 29-Mar 1", "Feb 28-Feb 29", "Feb 29+", "Feb 29-Feb 29 +1 day"]).to_string(),
+            4 => format!("week 53{}", ch.pick(&["", " Su", " Fr", " Mo"])),
+            5 => format!("{} {} {wd}", month_str(ch.pick(&MONTHS)), ch.pick(&[1u8, 25, 31, 29, 13, 15])),
+            6 => {
+                let a = ch.pick(&[1900u16, 1999, 2020, 2096, 2100, 9000]);
+                format!("{a}-9999/{}", ch.pick(&[3u16, 4, 7, 9, 25, 100, 400]))
+            }
+            7 => format!("{}-{}/{}{}", 2020 + ch.draw(80), 2100 + ch.draw(200), ch.pick(&[2u16, 3, 5, 8]), month_str(ch.pick(&MONTHS))),
+            8 => format!("easter{} week {}", ch.pick(&["", " +1 day", " -2 days"]), ch.pick(&[12u8, 13, 14, 16, 17])),
+            9 => ch.pick(&["Dec 31 +2 days", "Dec 31 +1 day", "Dec 30+Su", "Jan 1 -1 day", "Jan 1-Mo", "Dec 29+Th +3 days"]).to_string(),
+            10 => format!("{} Feb 29", ch.pick(&[2096u16, 2104, 2100, 2400, 9996, 2000])),
+            11 => format!("week {} {wd}[{}]", ch.pick(&[1u8, 53, 52, 5, 9]), ch.pick(&["1", "-1", "5", "-5"])),
+            12 => format!("{} 31 {wd}[-1]", month_str(ch.pick(&[Month::January, Month::March, Month::May, Month::December]))),
+            _ => format!("PH {}", ch.pick(&["+1 day", "-1 day", "+7 days", "+30 days", "-3 days"])),
+        };
+        let modifier = ch.pick(&["", "", " off", " unknown", " \"x\""]);
+        format!("{body}{time}{modifier}")
+    }
+    let mut s = String::new();
+    match ch.draw(4) {
+        0 => {}
+        1 => s.push_str("24/7; "),
+        2 => s.push_str("Mo-Fr 09:00-17:00; "),
+        _ => s.push_str("2000-2200 Sa 10:00-14:00, "),
+    }
+    s.push_str(&rule(ch));
+    if ch.chance(35) {
+        s.push_str(ch.pick(&["; ", ", ", " || "]));
+        s.push_str(&rule(ch));
+    }
+    s
+}
